@@ -9,7 +9,9 @@ use serde_json::{json, Value as J};
 
 use crate::model::DObj;
 
-pub const VERIF_ROOT: &str = "/verif";
+pub fn verif_root() -> PathBuf {
+    PathBuf::from(std::env::var("VERIF_ROOT").unwrap_or_else(|_| "/verif".to_string()))
+}
 
 // ---------------------------------------------------------------------------------------------
 // Case: the serialisable unit every judge function works on (and every replay file contains)
@@ -265,7 +267,8 @@ impl Report {
     /// Write evidence and replay files, print the interface lines, return the exit code.
     pub fn finish(mut self) -> i32 {
         let wall = self.started.elapsed().as_secs_f64();
-        let root = Path::new(VERIF_ROOT);
+        let root_buf = verif_root();
+        let root = root_buf.as_path();
         // replay files
         let mut violation_lines = vec![];
         let mut seen = HashSet::new();
@@ -361,7 +364,7 @@ pub struct Finding {
 }
 
 pub fn load_findings() -> Vec<Finding> {
-    let path = Path::new(VERIF_ROOT).join("known_findings.json");
+    let path = verif_root().join("known_findings.json");
     let text = match std::fs::read_to_string(&path) {
         Ok(t) => t,
         Err(_) => return vec![],
@@ -382,7 +385,7 @@ pub fn load_findings() -> Vec<Finding> {
             status: s("status"),
             signature: s("signature"),
             what: s("what"),
-            repro: Path::new(VERIF_ROOT).join(s("repro")),
+            repro: verif_root().join(s("repro")),
             commit: e.get("commit").and_then(|x| x.as_str()).map(|x| x.to_string()),
         });
     }
